@@ -15,6 +15,9 @@ EXTRA = [
     Skeleton("b09_match", {"main.py": "def fun({0}):\n    match {0}:\n        case [{1}, *{2}]:\n            return {1}, {2}\n        case {'k': {3}, **{4}}:\n            return {3}, {4}\n    return None\nprint(fun([1, 2]), fun({'k': 1}))\n"}),
     Skeleton("b10_async_try", {"main.py": "import asyncio\nasync def fun({0}):\n    try:\n        {1} = {0}\n    except Exception as {2}:\n        {1} = {2}\n    finally:\n        {3} = 1\n    return {1}, {3}\nprint(asyncio.run(fun(1)))\n"}),
     Skeleton("b11_nested_defs_lines", {"main.py": "def aa({0}):\n    def bb({1}):\n        def cc({2}):\n            return {0} + {1} + {2}\n        return cc\n    return bb\n\n\nclass kk:\n    def mm(self, {3}):\n        return {3}\n    {0} = 1\nprint(aa(1)(2)(3), kk().mm(4))\n"}),
+    # comment-only and blank lines where the end of a scope is decided: dedented inside the trailing
+    # compound statement, at body depth right after the last statement, between nested definitions
+    Skeleton("b13_comments_at_scope_ends", {"main.py": "def outer({0}):\n    {1} = 0\n    if {0}:\n        {1} = 1\n# dedented comment inside the trailing if\n        {1} += 1\n    # comment at body depth\n\nclass kk:\n    def mm(self, {2}):\n        return {2}\n        # trailing comment deeper than the body\n    # comment at class depth\n    def nn(self):\n        for {3} in [1]:\n            pass\n  # oddly indented comment\n        else:\n            {3} = 2\n        return {3}\n# module comment\nprint(outer(1), kk().mm(2), kk().nn())\n"}),
     Skeleton("b12_lambda_default", {"main.py": "{0} = 1\n{1} = lambda {2}, {3}={0}: {2} + {3}\nprint({1}(1))\n"}),
 ]
 
